@@ -173,11 +173,13 @@ def check_point(tname, order, tol, net, iface, cols, viol, tag):
     # interface: every key order, and zero rows omitted
     zero = [st for st in order if not any(d_full[st])]
     variants = []
-    for perm in itertools.permutations(order):
-        variants.append({st: d_full[st] for st in perm})
     if zero and len(zero) < len(order):
+        # omitted stations count as 0 - asked FIRST, while whatever the previous query left behind in the
+        # interface (a different schedule of the same shape) is still around
         variants.append({st: d_full[st] for st in order if st not in zero})
         variants.append({st: d_full[st] for st in reversed(order) if st not in zero})
+    for perm in itertools.permutations(order):
+        variants.append({st: d_full[st] for st in perm})
     for dd in variants:
         got_i = bool(iface.is_feasible(dd, violation_tolerance=tol[0], relative_tolerance=tol[1]))
         if got_i != exp:
@@ -239,14 +241,21 @@ def run_history(item, acc=None):
     (the Interface object and its InfrastructureInfo were created BEFORE the edits)"""
     viol = []
     tname, order, tol = item["tpl"], ORDERS[item["order"]], TOLS[item["tol"]]
-    net, iface = build(tname, order, tol)
+    # the network is built with the DEFAULT tolerances, queried once, and only then given its tolerances by
+    # assigning the public attributes (the documented way to change them on a live network)
+    net, iface = build(tname, order, (1e-5, 1e-7))
     iface.infrastructure_info()
     iface.get_constraints()
+    net.is_feasible(np.zeros((3, 1)))
+    iface.is_feasible({st: [0.0] for st in order})
+    net.violation_tolerance, net.relative_tolerance = tol
     model = [(n, dict(c), l) for n, c, l in TEMPLATES[tname]["cons"]]
-    for k, (op, pos, coefs, fac) in enumerate(HIST_STEPS):
+    for k, (op, pos, coefs, fac) in enumerate([("none", None, None, None)] + HIST_STEPS):
         with warnings.catch_warnings():
             warnings.simplefilter("ignore")
-            if op == "update":
+            if op == "none":
+                pass  # step 0: only the tolerances were reassigned
+            elif op == "update":
                 n, c, l = model[pos]
                 c2 = dict(coefs) if coefs is not None else c
                 l2 = round(l * fac, 6) + 0.0137
@@ -342,5 +351,10 @@ def replay(scn):
     if scn.get("hist"):
         return [{"signature": s, "what": w, "observed": o, "expected": e} for s, w, _, o, e in execute({k: scn[k] for k in ("tpl", "order", "tol", "T", "hist")})]
     only = scn.get("point", {}).get("cols")
-    viol = execute({k: scn[k] for k in ("tpl", "order", "tol", "T")}, None, only=only)
+    item = {k: scn[k] for k in ("tpl", "order", "tol", "T")}
+    viol = execute(item, None, only=only)
+    if not viol:
+        # the verdict may depend on what the SAME Interface/network objects were asked before this point
+        # (state kept between queries): re-execute the item's whole query sequence
+        viol = execute(item, None, only=None)
     return [{"signature": s, "what": w, "observed": o, "expected": e} for s, w, _, o, e in viol]
